@@ -32,8 +32,8 @@ func VerifReset(keepTag func(string) bool, keepHandle func(string) bool) (panick
 		}
 	}
 	BufferCap.Store(10 * 1024)
-	enableCaller = true
-	fastCaller = false
+	enableCaller = true // verif:needs enableCaller
+	fastCaller = false  // verif:needs fastCaller
 	TimeNow = nil
 	StringFromContext = nil
 	FieldsFromContext = nil
@@ -43,14 +43,29 @@ func VerifReset(keepTag func(string) bool, keepHandle func(string) bool) (panick
 // VerifIsValidTag exposes the tag-name predicate.
 func VerifIsValidTag(s string) bool { return isValidTag(s) }
 
-// VerifCallerMode reads the caller-lookup switches.
-func VerifCallerMode() (enable, fast bool) { return enableCaller, fastCaller }
+// Lines marked `verif:needs` are dropped by the instrumenter when the tree under test no longer has
+// the private name, so that a refactoring there degrades an accessor instead of breaking the build.
+
+// VerifCallerMode reads the caller-lookup switches (ok=false: the tree has no such switches any more).
+func VerifCallerMode() (enable, fast, ok bool) {
+	n := 0
+	enable, n = enableCaller, n+1 // verif:needs enableCaller
+	fast, n = fastCaller, n+1     // verif:needs fastCaller
+	return enable, fast, n == 2
+}
 
 // VerifSetCallerMode sets the caller-lookup switches directly.
-func VerifSetCallerMode(enable, fast bool) { enableCaller, fastCaller = enable, fast }
+func VerifSetCallerMode(enable, fast bool) {
+	enableCaller = enable // verif:needs enableCaller
+	fastCaller = fast     // verif:needs fastCaller
+}
 
 // VerifClearFrameCache empties the fast-caller cache.
-func VerifClearFrameCache() { frameCache = sync.Map{} }
+func VerifClearFrameCache() {
+	frameCache = sync.Map{} // verif:needs frameCache
+}
+
+var _ = sync.Map{}
 
 // VerifLive returns the live logger and appender instances (plugin structs): every element of
 // every slice in the package's lifecycle record, whatever its fields are called, sorted into loggers
